@@ -2,13 +2,16 @@
 import sys
 import vlib
 from comp.slab import check as slab
+from comp.cxxleaf import check as cxxleaf
 
 def main():
     c = vlib.Check("C01")
     c.rule = slab.RULE
     c.trusted = ["Coq 8.16.1 kernel (coqc; vm_compute only in Examples)"] + slab.TRUSTED
     c.assumptions = slab.ASSUMPTIONS
-    c.prove()
+    cxxleaf.run(c, ["slab"])      # size_to_bucket/bucket_to_size re-translated from the current source (translator tie)
+    c.trusted = c.trusted + cxxleaf.TRUSTED
+    c.prove(["C01"] + cxxleaf.prop_ids(["slab"]))
     slab.run(c, "C01")
     sys.exit(c.finish())
 
